@@ -242,6 +242,12 @@ func validateVisitGroupField(fieldDef *datadictionary.FieldDef, fieldStack []Tag
 
 		// Start of repeating group.
 		if int(fieldStack[0].tag) == fieldDef.Fields[0].Tag() {
+			// The previous entry ends here: it must not lack a required member.
+			for _, skipped := range childDefs {
+				if skipped.Required() {
+					return fieldStack, RequiredTagMissing(Tag(skipped.Tag()))
+				}
+			}
 			childDefs = fieldDef.Fields
 			groupCount++
 		}
